@@ -697,6 +697,48 @@ pub fn run(ctx: &Ctx) {
     }
     ctx.note(format!("{} session specs, {} single-fault cases", sp.len(), cases.len()));
     ctx.run_list("single_faults", &cases, true, oracle);
+    // pairs of DIFFERENT failure kinds on consecutive steps of the same party:
+    // (read fault at message i, write fault at message i+1) and (write fault at i, read fault at i+1)
+    let mut pairs = Vec::new();
+    for s in sp.iter().filter(|s| s.hs.psks.len() <= 1) {
+        let all = faults_for(s, 5);
+        let nm = s.n_msgs();
+        let pick_kind = |idx: usize, want_read: bool| -> Vec<Fault> {
+            let mut out: Vec<Fault> = Vec::new();
+            for f in all.iter().filter(|f| f.idx == idx && f.reps == 1) {
+                let is_read = matches!(f.cause, Cause::RFlip(..) | Cause::RTrunc(_) | Cause::RPbuf(_) | Cause::RExtend(_) | Cause::RForeign | Cause::RPsk(_) | Cause::RBig);
+                let is_write = matches!(f.cause, Cause::WBuf(_) | Cause::WBig | Cause::WPsk(_));
+                let kind = format!("{:?}", f.cause);
+                let tag = kind.split('(').next().unwrap().to_string();
+                if ((want_read && is_read) || (!want_read && is_write)) && !out.iter().any(|g| format!("{:?}", g.cause).starts_with(&tag)) {
+                    out.push(f.clone());
+                }
+            }
+            out
+        };
+        for i in 0..nm.saturating_sub(1) {
+            // reader of message i is the writer of message i+1
+            for a in pick_kind(i, true) {
+                for b in pick_kind(i + 1, false) {
+                    if matches!(a.cause, Cause::RPsk(_)) && matches!(b.cause, Cause::WPsk(_)) {
+                        continue;
+                    }
+                    pairs.push(Case { spec: s.clone(), faults: vec![a.clone(), b], plen: 5, extra_rs: false });
+                }
+            }
+            // writer of message i is the reader of message i+1
+            for a in pick_kind(i, false) {
+                for b in pick_kind(i + 1, true) {
+                    if matches!(a.cause, Cause::WPsk(_)) && matches!(b.cause, Cause::RPsk(_)) {
+                        continue;
+                    }
+                    pairs.push(Case { spec: s.clone(), faults: vec![a.clone(), b], plen: 5, extra_rs: false });
+                }
+            }
+        }
+    }
+    ctx.note(format!("{} fault pairs of different kinds on consecutive steps of one party", pairs.len()));
+    ctx.run_list("fault_pairs", &pairs, true, oracle);
     // scattered multi-fault schedules
     let sp = std::sync::Arc::new(specs(&all_hs_names(), 1, ctx.seed ^ 0x77));
     ctx.run_prop(
